@@ -312,3 +312,8 @@ package keeper
 //@   ensures @authority_only err == nil ==> req.Authority == k.Keeper.authority
 //@   ensures @rejected_changes_nothing err != nil ==> str_store == old(str_store)
 //@   ensures @valid_and_stored err == nil ==> str_store == strParamsPut(old(str_store), req.Params) && !isnil(req.Params.ValidatorFee) && 0 <= dval(req.Params.ValidatorFee) && dval(req.Params.ValidatorFee) <= ONE
+
+// logging has no effect on module state
+//@ func Keeper.Logger(ctx) (l)
+//@   trusted the logger handle is not modelled; the method only derives a logger from the context
+//@   pure
